@@ -524,7 +524,7 @@ class Share(object):
                               " stamp= {1}\n".format(self.name, stamp))
 
         if unit is not None:
-            self.changUnit(**unit)
+            self.changeUnit(**unit)
         if owner is not None:
             self.owner = owner
         if deck is not None:
